@@ -7,6 +7,7 @@ CONSTANTS
   MaxFeed = 1
   MaxEof = 1
   SlowSet = {}
+  CfgWrite = FALSE
 INVARIANT MonitorQuiet
 INVARIANT OneReceivePath
 INVARIANT LockDiscipline
